@@ -77,6 +77,8 @@ impl<'c> Body<'c> {
 fn maybe_panic(ctx: &Ctx, uid: u32, what: u8) {
     if ctx.inject[uid as usize].load(SeqCst) == what {
         let t = ctx.next_token();
+        ctx.fired[uid as usize].fetch_add(1, SeqCst);
+        ctx.panic_fired.fetch_add(1, SeqCst);
         std::panic::panic_any(format!("INJECTED-PANIC uid={} token={}", uid, t));
     }
 }
@@ -131,13 +133,14 @@ impl<'a> DynamicSystemData<'a> for HData<'a> {
         }
         ctx.gate(uid, Gate::PreFetch);
         ctx.ev(Ev::FetchEnter, uid, 0);
-        maybe_panic(ctx, uid, INJ_PANIC_FETCH);
         for s in &acc.rslots {
             match fetch_r(world, *s) {
                 Some(g) => d.rd.push((*s, g)),
                 None => ctx.violation(format!("harness: slot {} missing for u{}", s.label(), uid)),
             }
         }
+        // injected fault in the middle of fetching: the shared guards taken so far must unwind
+        maybe_panic(ctx, uid, INJ_PANIC_FETCH);
         for s in &acc.wslots {
             match fetch_w(world, *s) {
                 Some(g) => d.wr.push((*s, g)),
@@ -178,6 +181,7 @@ impl<'a> System<'a> for HSys {
         }
         ctx.gate(uid, Gate::PreRun);
         ctx.ev(Ev::RunStart, uid, 0);
+        ctx.active.fetch_add(1, SeqCst);
         ctx.runs[uid as usize].fetch_add(1, SeqCst);
         ctx.last_thread[uid as usize].store(tid() as u32, SeqCst);
         let mut b = Body::new(&ctx, uid, self.obs);
@@ -195,6 +199,8 @@ impl<'a> System<'a> for HSys {
         ctx.gate(uid, Gate::PreRelease);
         ctx.ev(Ev::Released, uid, 0);
         drop(data);
+        ctx.finished.fetch_add(1, SeqCst);
+        ctx.active.fetch_sub(1, SeqCst);
         ctx.gate(uid, Gate::PostRelease);
     }
 
@@ -471,6 +477,7 @@ impl<'a, M: Menu> System<'a> for SSys<M> {
         ctx.gate(uid, Gate::PostFetch);
         ctx.gate(uid, Gate::PreRun);
         ctx.ev(Ev::RunStart, uid, 0);
+        ctx.active.fetch_add(1, SeqCst);
         ctx.runs[uid as usize].fetch_add(1, SeqCst);
         ctx.last_thread[uid as usize].store(tid() as u32, SeqCst);
         let mut b = Body::new(&ctx, uid, self.obs);
@@ -484,6 +491,8 @@ impl<'a, M: Menu> System<'a> for SSys<M> {
         ctx.gate(uid, Gate::PreRelease);
         ctx.ev(Ev::Released, uid, 0);
         drop(data);
+        ctx.finished.fetch_add(1, SeqCst);
+        ctx.active.fetch_sub(1, SeqCst);
         ctx.gate(uid, Gate::PostRelease);
     }
 
